@@ -10,9 +10,67 @@ def mk(spec):
     tc, m, n = spec
     return matrix([float(i % 7) for i in range(m * n)], (m, n), tc) if tc == 'd' else \
            matrix([complex(i % 5, i % 3) for i in range(m * n)], (m, n), tc) if tc == 'z' else matrix(list(range(m * n)), (m, n), 'i')
+def kernel_case(case):
+    """misc_solvers kernels: arguments of the documented lengths for `dims`, `mnl` (`short` names one argument that is built too short)"""
+    from cvxopt import misc_solvers as ms, misc
+    import random
+    rng = random.Random(case['id'])
+    dims, mnl, k = case['dims'], case['mnl'], case['kernel']
+    N = mnl + dims['l'] + sum(dims['q']) + sum(m * m for m in dims['s'])
+    Np = mnl + dims['l'] + sum(dims['q']) + sum(m * (m + 1) // 2 for m in dims['s'])
+    Nd = mnl + dims['l'] + sum(dims['q']) + sum(dims['s'])
+    short = case.get('short'); cut = case.get('cut', 1)
+    def vec(name, n, ncols=1, lo=0.5):
+        if short == name: n = max(0, n - cut)
+        return matrix([lo + rng.random() for _ in range(n * ncols)], (n, ncols), 'd')
+    def interior():
+        v = matrix(0.0, (N, 1)); o = 0
+        for i in range(mnl + dims['l']): v[i] = 1.0 + rng.random()
+        o = mnl + dims['l']
+        for m in dims['q']:
+            v[o] = 3.0 + m
+            for i in range(1, m): v[o + i] = rng.random() - 0.5
+            o += m
+        for m in dims['s']:
+            for i in range(m): v[o + i * m + i] = 2.0 + m
+            o += m * m
+        return v
+    if k == 'scale':
+        lm = matrix(0.0, (Nd, 1)); W = misc.compute_scaling(interior(), interior(), lm, dims, mnl if mnl else None)
+        ms.scale(vec('x', N, case.get('ncols', 1)), W, trans=case.get('trans', 'N'), inverse=case.get('inverse', 'N'))
+    elif k == 'scale2': ms.scale2(vec('lmbda', Nd, lo=1.0), vec('x', N), dims, mnl, inverse=case.get('inverse', 'N'))
+    elif k == 'pack':
+        ox, oy = case.get('offsetx', 0), case.get('offsety', 0)
+        ms.pack(vec('x', ox + N), vec('y', oy + Np), dims, mnl, offsetx=ox, offsety=oy)
+    elif k == 'pack2': ms.pack2(vec('x', N), dims, mnl)
+    elif k == 'unpack':
+        ox, oy = case.get('offsetx', 0), case.get('offsety', 0)
+        ms.unpack(vec('x', ox + Np), vec('y', oy + N), dims, mnl, offsetx=ox, offsety=oy)
+    elif k == 'symm':
+        n = case.get('n', 3); off = case.get('offset', 0)
+        ms.symm(vec('x', off + n * n), n, off)
+    elif k == 'sprod': ms.sprod(vec('x', N), vec('y', N if case.get('diag', 'N') == 'N' else Nd), dims, mnl, diag=case.get('diag', 'N'))
+    elif k == 'sinv': ms.sinv(vec('x', N), vec('y', N, lo=2.0), dims, mnl)
+    elif k == 'trisc':
+        off = case.get('offset', 0); ms.trisc(vec('x', off + N - mnl), dims, off)
+    elif k == 'triusc':
+        off = case.get('offset', 0); ms.triusc(vec('x', off + N - mnl), dims, off)
+    elif k == 'sdot': ms.sdot(vec('x', N), vec('y', N), dims, mnl)
+    elif k == 'max_step':
+        if case.get('sigma'):
+            ms.max_step(vec('x', N), dims, mnl, vec('sigma', sum(dims['s'])))
+        else: ms.max_step(vec('x', N), dims, mnl)
+    else: raise KeyError(k)
+
 for line in sys.stdin:
     case = json.loads(line)
     print('START %d' % case['id']); sys.stdout.flush()
+    if case.get('kind') == 'kernel':
+        try:
+            kernel_case(case); print('RESULT %d ok' % case['id'])
+        except Exception as e:
+            print('RESULT %d exc %s' % (case['id'], type(e).__name__))
+        sys.stdout.flush(); continue
     try:
         kw = dict(case['kw'])
         for name, spec in zip(case['matnames'], case['mats']): kw[name] = mk(spec)
